@@ -142,7 +142,12 @@ theorem geonum_ctors (m p d x y : F) (k : ℕ) (a : Angle F) :
     Geonum.new m p d = ⟨m, Angle.new p d⟩ ∧ Geonum.newWithAngle m a = ⟨m, a⟩ ∧
     Geonum.newWithBlade m k p d = ⟨m, Angle.newWithBlade k p d⟩ ∧
     (Geonum.newFromCartesian x y).angle = Angle.newFromCartesian x y ∧
-    (Geonum.newFromCartesian x y).mag = sqrt (fadd (fmul x x) (fmul y y)) := ⟨rfl, rfl, rfl, rfl, rfl⟩
+    (Geonum.newFromCartesian x y).mag =
+      (if FloatLike.isNormal (fadd (fmul x x) (fmul y y)) || feq (fmax (fabs x) (fabs y)) zero
+          || !(FloatLike.isFinite (fmax (fabs x) (fabs y))) then sqrt (fadd (fmul x x) (fmul y y))
+       else fmul (fmax (fabs x) (fabs y)) (sqrt (fadd
+          (fmul (fdiv x (fmax (fabs x) (fabs y))) (fdiv x (fmax (fabs x) (fabs y))))
+          (fmul (fdiv y (fmax (fabs x) (fabs y))) (fdiv y (fmax (fabs x) (fabs y))))))) := ⟨rfl, rfl, rfl, rfl, rfl⟩
 end G
 
 /-! ### E-tier: exact arithmetic — what the constructors denote -/
@@ -170,7 +175,25 @@ theorem newFromCartesian_real (x y : ℝ) :
     (Geonum.newFromCartesian x y).mag = Real.sqrt (x * x + y * y) ∧
     ∃ (δ : ℝ) (m : ℤ), |δ| < 1 / 10 ^ 10 ∧
       T (Geonum.newFromCartesian x y).angle = Complex.arg ⟨x, y⟩ + δ + (m : ℝ) * (2 * Real.pi) := by
-  refine ⟨rfl, ?_⟩
+  refine ⟨?_, ?_⟩
+  · -- the magnitude: `√(x² + y²)` directly, or rescaled by the larger component when the sum is below the normal range (fix 9b1d)
+    show (if FloatLike.isNormal (fadd (fmul x x) (fmul y y)) || feq (fmax (fabs x) (fabs y)) (zero : ℝ)
+          || !(FloatLike.isFinite (fmax (fabs x) (fabs y))) then sqrt (fadd (fmul x x) (fmul y y))
+       else fmul (fmax (fabs x) (fabs y)) (sqrt (fadd
+          (fmul (fdiv x (fmax (fabs x) (fabs y))) (fdiv x (fmax (fabs x) (fabs y))))
+          (fmul (fdiv y (fmax (fabs x) (fabs y))) (fdiv y (fmax (fabs x) (fabs y))))))) = _
+    split
+    · rfl
+    · rename_i hc
+      simp only [Bool.or_eq_true, not_or] at hc
+      have hs0 : ¬ (feq (fmax (fabs x) (fabs y)) (zero : ℝ) = true) := hc.1.2
+      rw [lit_real.1, r_eq, r_max, r_abs, r_abs] at hs0
+      simp only [decide_eq_true_eq] at hs0
+      have hspos : 0 < max |x| |y| := lt_of_le_of_ne (le_max_of_le_left (abs_nonneg x)) (Ne.symm hs0)
+      show max |x| |y| * Real.sqrt (x / max |x| |y| * (x / max |x| |y|) + y / max |x| |y| * (y / max |x| |y|)) = Real.sqrt (x * x + y * y)
+      have e : x * x + y * y = (max |x| |y|) ^ 2 * (x / max |x| |y| * (x / max |x| |y|) + y / max |x| |y| * (y / max |x| |y|)) := by
+        field_simp
+      rw [e, Real.sqrt_mul (sq_nonneg _), Real.sqrt_sq (le_of_lt hspos)]
   have hpi := Real.pi_pos
   have harg : |Complex.arg ⟨x, y⟩| ≤ Real.pi := Complex.abs_arg_le_pi _
   have hq : Complex.arg ⟨x, y⟩ / Real.pi * Real.pi / 1 = Complex.arg ⟨x, y⟩ := by field_simp
